@@ -120,13 +120,57 @@ def directed_scm_set_edits(mode, kind='incremental-differs-from-clean'):
     finally:
         shutil.rmtree(base, ignore_errors=True)
 
+def directed_url_switch(mode, kind='incremental-differs-from-clean'):
+    """url SCM: the url changes (same file name / other file name, with and without digest); the extracted tree of the old
+    archive must not shine through"""
+    import subprocess, tempfile, shutil, tarfile, hashlib
+    base = tempfile.mkdtemp(prefix='c01u-'); log = []
+    try:
+        def mk(ver, files):
+            d = os.path.join(base, 'dl', ver); os.makedirs(d); t = os.path.join(d, 'pkg.tar')
+            src = os.path.join(base, 'stage', ver, 'pkg'); os.makedirs(src)
+            for n, c in files.items(): open(os.path.join(src, n), 'w').write(c)
+            with tarfile.open(t, 'w') as tf: tf.add(src, arcname='pkg')
+            os.utime(t, (1000000000, 1000000000))
+            return 'file://' + t, hashlib.sha1(open(t, 'rb').read()).hexdigest()
+        u1, d1 = mk('v1.0', {'main.c': 'v1.0 main\n', 'obsolete.c': 'only in v1.0\n'})
+        u2, d2 = mk('v1.1', {'main.c': 'v1.1 main\n', 'new.c': 'only in v1.1\n'})
+        def model(url, digest):
+            scm = {'scm': 'url', 'url': url}
+            if digest: scm['digestSHA1'] = digest
+            return {'recipes': {'r0': {'root': True, 'checkoutSCM': scm,
+                                       'buildScript': '(cd "$1" && find . -type f -not -name "*.tar" -not -path "./.*" | sort | while read f; do echo "$f"; cat "$f"; done) > out.txt\n',
+                                       'packageScript': 'cp "$1"/out.txt result.txt\n'}}, 'config': {}}
+        states = [('url v1.0, no digest', model(u1, None)), ('url v1.1 (same file name), no digest', model(u2, None)), ('url v1.0 with digest', model(u1, d1)),
+                  ('url v1.1 with digest', model(u2, d2)), ('url v1.0, no digest', model(u1, None))]
+        p = P.Project(root=os.path.join(base, 'proj'))
+        for i, (what, m) in enumerate(states):
+            p.write(m); log.append(what)
+            rc, out = p.bob(mode, 'r0')
+            if rc != 0:
+                if i == 0: return None, ['(project does not build: %s)' % out[-200:].replace('\n', ' ')]
+                return {'kind': 'build-fails-after-url-change', 'mode': mode, 'history': log, 'output': out[-300:]}, log
+            inc = H.dist_contents(p, None)
+            c = P.Project(root=os.path.join(base, 'clean%d' % i)); c.write(m)
+            rc2, out2 = c.bob(mode, 'r0')
+            if rc2 != 0: return None, ['(clean build failed)']
+            ref = H.dist_contents(c, None); c.cleanup()
+            for name, dig in ref.items():
+                if inc.get(name) != dig:
+                    return {'kind': kind, 'package': name, 'mode': mode, 'history': log, 'what': 'the url of a url SCM changed: files of the old archive stay in the source workspace / new ones are missing'}, log
+        return None, log
+    except Exception as ex:
+        return None, ['harness problem: %r' % (ex,)]
+    finally:
+        shutil.rmtree(base, ignore_errors=True)
+
 def replay(rep):
     seed = int(os.environ.get('VERIF_SEED', '0') or 0)
     thorough = os.environ.get('VERIF_TIER') == 'thorough'
     n = 40 if thorough else 12; steps = 5 if thorough else 3
     tried = 0; distinct = set(); samples = []; problems = 0
     with cf.ThreadPoolExecutor(max_workers=8) as ex:
-        futs = [ex.submit(directed_checkout_edits, 'dev'), ex.submit(directed_checkout_edits, 'build'), ex.submit(directed_scm_set_edits, 'dev'), ex.submit(directed_scm_set_edits, 'build')] + [ex.submit(one_history, seed * 1000 + i, steps, 'dev' if i % 3 else 'build') for i in range(n)]
+        futs = [ex.submit(directed_checkout_edits, 'dev'), ex.submit(directed_checkout_edits, 'build'), ex.submit(directed_scm_set_edits, 'dev'), ex.submit(directed_scm_set_edits, 'build'), ex.submit(directed_url_switch, 'dev')] + [ex.submit(one_history, seed * 1000 + i, steps, 'dev' if i % 3 else 'build') for i in range(n)]
         for f in cf.as_completed(futs):
             w, log = f.result(); tried += 1
             if log and (str(log[-1]).startswith('harness problem') or str(log[-1]).startswith('(project does not') or str(log[-1]).startswith('(clean build')): problems += 1; continue
@@ -135,5 +179,5 @@ def replay(rep):
             if w is not None: return {'reproduced': True, 'tried': tried, 'witness': w}
     if problems > tried // 2: return {'reproduced': None, 'detail': 'harness problems in %d of %d cases' % (problems, tried)}
     return {'reproduced': False, 'tried': tried, 'distinct': len(distinct), 'samples': samples,
-            'bound': '2 directed histories of deterministic-checkout edits (script, checkoutVars value, pinned git tag, revert) + 2 directed histories changing the set of SCMs of a checkout (remove, move, if, add back) + %d generated projects (2-4 recipes), edit histories of %d steps, develop and release mode' % (n, steps),
+            'bound': '2 directed histories of deterministic-checkout edits (script, checkoutVars value, pinned git tag, revert) + 2 directed histories changing the set of SCMs of a checkout (remove, move, if, add back) + 1 url SCM history (url changes with the same file name, with/without digest) + %d generated projects (2-4 recipes), edit histories of %d steps, develop and release mode' % (n, steps),
             'detail': 'dist content after every incremental build equals a clean build; repeated builds execute nothing'}
